@@ -9,6 +9,8 @@ mod engine;
 mod matcher;
 mod c04;
 mod c05;
+mod c06;
+mod docgen;
 mod c08;
 mod proc;
 mod c11;
@@ -26,6 +28,7 @@ fn property(id: &str) -> Option<Property> {
         "C01" | "C02" | "C03" => matcher::property(id),
         "C04" => c04::property(),
         "C05" => c05::property(),
+        "C06" => c06::property(),
         "C08" => c08::property(),
         "C11" => c11::property(),
         "C16" => c16::property(),
